@@ -17,6 +17,7 @@ import (
 	"time"
 
 	"verif/harness/gen"
+	"verif/harness/model"
 )
 
 type Engine struct {
@@ -98,6 +99,7 @@ func RunCase(p *PropSpec, tier string, seed uint64, use int, idx int, scratch st
 		R:       gen.New(gen.Mix(seed, hashName(p.ID), hashName(u.E.Name), uint64(idx), salt)),
 		Scratch: scratch, res: res,
 	}
+	model.ResetGenerated()
 	defer func() {
 		if r := recover(); r != nil {
 			st := string(debug.Stack())
@@ -107,6 +109,10 @@ func RunCase(p *PropSpec, tier string, seed uint64, use int, idx int, scratch st
 	}()
 	u.E.Run(c)
 	res.CasesRun++
+	if f := os.Getenv("VERIF_DUMP_HISTORY"); f != "" {
+		// diagnosis only: the rendered history of the case, whatever its verdict
+		os.WriteFile(f, []byte(strings.Join(c.Hist, "\n")+"\n"), 0644)
+	}
 }
 
 // panicSite extracts the first clover frame of a stack (for signatures).
